@@ -54,10 +54,20 @@ IsbnWitnesses ==
                   : b \in 1..Len(IsbnDB[a].kids) }
           : a \in 1..Len(IsbnDB) }
 
+(* a registrant range must be a leaf: an entry nested below one (a line indented too far) would make the hyphenation six parts *)
+IsbnDeepWitnesses ==
+  UNION { UNION { UNION { UNION { { [kind |-> "ISBN", w |-> Isbn13(IsbnDB[a].low \o IsbnDB[a].kids[b].low \o IsbnDB[a].kids[b].kids[c].low \o pd),
+                                     path |-> <<IsbnDB[a].low, IsbnDB[a].kids[b].low, IsbnDB[a].kids[b].kids[c].low \o pd>>]
+                                    : pd \in {IsbnDB[a].kids[b].kids[c].kids[d].low, IsbnDB[a].kids[b].kids[c].kids[d].high} }
+                                  : d \in 1..Len(IsbnDB[a].kids[b].kids[c].kids) }
+                          : c \in 1..Len(IsbnDB[a].kids[b].kids) }
+                  : b \in 1..Len(IsbnDB[a].kids) }
+          : a \in 1..Len(IsbnDB) }
+
 VARIABLE done
 Init == done = FALSE
 Next == ~done /\ done' = TRUE
        /\ (\A w \in IbanWitnesses : PrintT(<<"WIT", w>>))
-       /\ (\A w2 \in IsbnWitnesses : PrintT(<<"WIT", w2>>))
+       /\ (\A w2 \in IsbnWitnesses \cup IsbnDeepWitnesses : PrintT(<<"WIT", w2>>))
 Spec == Init /\ [][Next]_done
 =============================================================================
